@@ -3,6 +3,7 @@ from typing import Any, Optional
 
 from vyper import ast as vy_ast
 from vyper.ast.validation import validate_call_args
+from vyper.codegen.core import ensure_in_memory
 from vyper.codegen.expr import Expr
 from vyper.codegen.ir_node import IRnode
 from vyper.exceptions import CompilerPanic, TypeMismatch, UnfoldableNode
@@ -13,6 +14,7 @@ from vyper.semantics.analysis.utils import (
     validate_expected_type,
 )
 from vyper.semantics.types import TYPE_T, KwargSettings, VyperType
+from vyper.semantics.types.bytestrings import _BytestringT
 from vyper.semantics.types.utils import type_from_annotation
 
 
@@ -27,7 +29,13 @@ def process_arg(arg, expected_arg_type, context):
         return Expr.parse_value_expr(arg, context)
 
     if isinstance(expected_arg_type, VyperType):
-        return Expr(arg, context).ir_node
+        ret = Expr(arg, context).ir_node
+        if ret.value == "~empty" and isinstance(ret.typ, _BytestringT):
+            # `empty(Bytes[N])` / `empty(String[N])` is a value, not a pointer,
+            # but the builtins address bytestring arguments through pointers
+            # (bytes_data_ptr, get_bytearray_length, ...): materialize it.
+            ret = ensure_in_memory(ret, context)
+        return ret
 
     raise CompilerPanic(f"Unexpected type: {expected_arg_type}")  # pragma: nocover
 
